@@ -1,3 +1,4 @@
+import CffiVerif.Model.ConstExprProto   -- not used by the theorems: keeps the driver's imports fresh when Generated/ changes
 import CffiVerif.Proofs.ConstExpr
 import CffiVerif.Proofs.DefineConst
 import CffiVerif.Proofs.ConstExprNoWrap
